@@ -7,8 +7,8 @@ Hand model of configuration validation and instance set-up
 trillian/ctfe/handlers.go `newLogInfo`, `Handlers`; trillian/ctfe/sth.go getters).
 
 Every comparison that the Go code makes on numbers / booleans is a *regenerated* kernel
-(`Gen.cfg…`, `Gen.handlersDropAdd`, `Gen.sthGetterSelect`, `Gen.mirrorMaxTreeSize`, tables
-`Gen.handlerPaths`, `Gen.handlerDropped`, `Gen.ekuTable`). What library calls decide
+(`Gen.cfg…`, `Gen.handlerPathsFor`, `Gen.sthGetterSelect`, `Gen.mirrorMaxTreeSize`, tables
+`Gen.ekuTable`). What library calls decide
 (public-key parse, `Any.UnmarshalNew`, STH verification, DSN parsers, PEM loading, signer
 creation) enters as oracle fields that the harness computes with the same library functions.
 
@@ -284,10 +284,9 @@ def sprintfKey (name : Bytes) (id : Int) : Bytes := name ++ [45] ++ decInt id
 def normPrefix (p : Bytes) : Bytes :=
   trimRightByte slash (if hasPrefix p [slash] then p else slash :: p)
 
-/-- the endpoint paths served for a configuration (regenerated table and deletion condition). -/
-def endpoints (c : LogConfig) : List String :=
-  if Gen.handlersDropAdd c.isReadonly c.isMirror then Gen.handlerPaths.filter (fun p => !Gen.handlerDropped.contains p)
-  else Gen.handlerPaths
+/-- the endpoint paths served for a configuration (regenerated from `Handlers`: the literal plus what is conditionally
+added to / deleted from it) -/
+def endpoints (c : LogConfig) : List String := Gen.handlerPathsFor c.isReadonly c.isMirror
 
 def handlersOf (c : LogConfig) : List Bytes := (endpoints c).map fun p => normPrefix c.pfx ++ str p
 
